@@ -11,7 +11,8 @@
   Model: `NsyncVerif.Model.Note` — acceptor of /repo/internal/note.c (+ the nsync_wait_n path of
   nsync_note_wait) at one-atomic-operation granularity; all theorems are about every reachable
   state, i.e. every forest, every number of threads, every interleaving, every clock.
-  The model follows note.c AFTER the repair of defect F5 (/verif/fixes/F5/note_fix.diff).
+  The model follows note.c AFTER the repair of the defects F5 (/verif/fixes/F5/note_fix.diff) and
+  F4 / F7 (/verif/fixes/F4F7/note_fix.diff).
   "Notified" (`State.Notified`) = the flag is set or the expiry time is zero (a zero deadline on the
   creation-time path: `NOTIFIED_TIME == 0` with the flag 0; a note created under an already
   notified parent now gets its flag set by `nsync_note_new`).
@@ -27,22 +28,31 @@
     minimum).  `C08_expiry_min_partial` is kept (now a corollary); `C08_expiry_min_full` is proved
     (`C08_expiry_min_full_holds`).  What the code did before the repair is documented by
     `C08_expiry_min_old_code_witness`.
-  * `C08_complete`: the full statement `C08_complete_full` is REFUTED on the current code
-    (`C08_complete_witness`, known defect F4, accepted trace from the unmodified library).
-    `C08_complete_partial` proves it for the flags (every descendant of a notified note is notified
-    once no activation of note_notify_child on that note is left) under the hypothesis that
-    `nsync_note_free` never adopts a child under an already notified parent (`ReachableH` — the
-    weakest hypothesis found: it excludes exactly the step that loses the notification).  NOT
-    proved: the "every thread waiting on them is released" half for the descendants' waiter
-    records (only `C08_waiters_of_notified`-style facts for the stack are available).
+  * `C08_complete` — PROVED IN FULL since the repair of the defects F4 / F7
+    (/verif/fixes/F4F7/note_fix.diff; the model follows the repaired note.c): in EVERY reachable
+    state a notified note `n` on which no thread has an activation of `note_notify_child` past the
+    store any more has no descendant left in the current forest — each was notified and
+    disconnected (in particular every descendant is notified).  The hypothesis `ReachableH` of the
+    former `C08_complete_partial` (no adoption by `nsync_note_free` under an already notified
+    parent) is gone: an adopter now finds the note it frees still on the parent's list (F7, "the
+    last disconnector unlinks": `InvForest.linked`), so the parent had an activation in progress,
+    which the adopter wakes (`children_adopted`) and which scans again before it ends (F4).
+    `C08_complete_partial` is kept as a corollary.  The "every thread waiting on them is released"
+    half and the statement in terms of threads still delivering (`C08_complete_full`, now proved)
+    are in Props/C08Release.lean.
+    The former refutation `C08_complete_witness` (accepted trace of the UNREPAIRED library) is gone
+    with the defect: `f4_repaired` below replays the same schedule on the repaired library — the
+    state in which the old code was stuck for ever is now left by a second scan that notifies
+    the adopted note.  /verif/corpus/C08/f4_*.txt stays as regression.
   * `C08_unaffected`: proved w.r.t. the creation-time path (`ancEver`):
     `C08_unaffected_partial`; the statement w.r.t. the current tree is `C08_unaffected_full`
-    (believed true, not proved: it needs the converse of `InvT`, which rests on the locks).
+    (proved in Props/C08Release.lean, `C08_unaffected_full_holds`: it needs the converse of `InvT`,
+    which rests on the locks).
     Both statements have a second disjunct since the repair of F5: `nsync_note_new` itself sets the
     flag of the note it is creating (not yet returned to anybody) when the intended parent is
     notified — the repaired code has this additional, harmless way of setting a flag.
 -/
-import NsyncVerif.Proofs.NoteInvJ
+import NsyncVerif.Proofs.NoteFixJ
 import NsyncVerif.Proofs.NoteInvP
 import NsyncVerif.Proofs.NoteWitness
 
@@ -294,90 +304,25 @@ theorem C08_expiry_min_old_code_witness :
 
 /-! ### Completeness of delivery -/
 
-/-- The thread is still delivering a notification / disconnecting a note: it is inside `notify`,
-    `note_notify_child` or `nsync_note_free`, and not parked in WAIT_FOR_NO_CHILDREN (where it only
-    waits for other threads). -/
-def Delivering : PC → Bool
-  | .nfy .. => true
-  | .chd (.waitRet _) _ _ => false
-  | .chd .. => true
-  | .fr (.waitRet _) .. => false
-  | .fr .. => true
-  | _ => false
-
-/-- The statement at full strength: once no thread is delivering any more, every descendant `d`
-    of a notified note `n` is notified and has no waiter record that is still waiting. -/
-def C08_complete_full : Prop :=
-  ∀ s, Reachable s → (∀ t, Delivering (s.pc t) = false) →
-    ∀ n d, (s.notes n).notified = true → Anc s n d →
-      (s.notes d).notified = true ∧
-      ∀ r, (s.recs r).used = true → (s.recs r).note = d → (s.recs r).waiting = false
-
-theorem f4_trace_ok : (run init Traces.f4Trace).toOption.isSome = true := by decide
-
-/-- Known defect F4 (see `Traces.f4Trace`): in the end state T0 is parked in
-    WAIT_FOR_NO_CHILDREN (note0) for ever, everybody else is idle; note0 is notified, its child
-    note2 (adopted from the freed note1) is not and never will be. -/
-theorem C08_complete_witness : ¬ C08_complete_full := by
-  intro h
-  have hpc0 : (stateAfter _ f4_trace_ok).pc 0 =
-      .chd (.waitRet false) [⟨0, none⟩] ⟨0, none, .ofApi⟩ := by decide
-  have hidle : ∀ t, t ≠ 0 → (stateAfter _ f4_trace_ok).pc t = .idle := by
-    intro t h0
-    by_cases h1 : t = 1
-    · subst h1; decide
-    · by_cases h99 : t = 99
-      · subst h99; decide
-      · have hall : Traces.f4Trace.all
-            (fun e => e.actor == some 0 || e.actor == some 1 || e.actor == some 99
-              || e.actor == none) = true := by decide
-        have hr := run_stateAfter _ f4_trace_ok
-        have key : ∀ (evs : List Event) (s0 s1 : State), run s0 evs = .ok s1 →
-            (∀ e ∈ evs, e.actor ≠ some t) → s1.pc t = s0.pc t := by
-          intro evs
-          induction evs with
-          | nil => intro s0 s1 hr _; simp [run] at hr; rw [← hr]
-          | cons e es ih =>
-            intro s0 s1 hr hne
-            simp only [run] at hr
-            cases h1 : step s0 e with
-            | ok s2 =>
-              rw [h1] at hr
-              rw [ih s2 s1 hr (fun e' he' => hne e' (List.mem_cons_of_mem _ he')),
-                step_pc_other h1 t (hne e List.mem_cons_self)]
-            | error m => rw [h1] at hr; cases hr
-        refine key _ _ _ hr ?_
-        intro e he hea
-        have := List.all_eq_true.mp hall e he
-        rw [hea] at this
-        simp [h0, h1, h99] at this
-  have hdel : ∀ t, Delivering ((stateAfter _ f4_trace_ok).pc t) = false := by
-    intro t
-    by_cases h0 : t = 0
-    · subst h0; rw [hpc0]; rfl
-    · rw [hidle t h0]; rfl
-  have hanc : Anc (stateAfter _ f4_trace_ok) 0 2 := Anc.up (by decide) (Anc.refl 0)
-  have := (h _ (reachable_stateAfter _ f4_trace_ok) hdel 0 2 (by decide) hanc).1
-  have hf : ((stateAfter _ f4_trace_ok).notes 2).notified = false := by decide
-  rw [hf] at this
-  cases this
-
-/-- C08 (proved part, flags): in executions in which `nsync_note_free` never adopts a child under
-    an already notified parent, a notified note `n` on which no thread has an activation of
-    `note_notify_child` past the store any more has no descendants left: every descendant was
-    notified and disconnected by that activation (or disconnected itself).  In particular every
-    descendant is notified. -/
-theorem C08_complete_partial {s : State} (h : ReachableH s) (n : NoteId)
+/-- C08 ("once no notification of it or of an ancestor is still in progress all its descendants
+    are notified"), in EVERY reachable state: a notified note `n` on which no thread has an
+    activation of `note_notify_child` past the store of the flag any more has no descendants left
+    in the current forest: every descendant was notified and disconnected by that activation (or
+    disconnected itself) — also those that `nsync_note_free` handed to `n` while the activation was
+    waiting (the repair of F4: the adopter sets `children_adopted`, the activation scans again).
+    In particular every descendant is notified.  (An activation on an ancestor of `n` that is still
+    in progress has an activation on `n` only while it is inside `n`'s subtree.) -/
+theorem C08_complete {s : State} (hr : Reachable s) (n : NoteId)
     (hn : (s.notes n).notified = true) (hq : ∀ t, ¬ Active (s.pc t) n) :
     (s.notes n).children = [] ∧ ∀ d, Anc s n d → d = n ∧ (s.notes d).notified = true := by
   have hch : (s.notes n).children = [] := by
     cases hc : (s.notes n).children with
     | nil => rfl
     | cons c cs =>
-      obtain ⟨t, ht⟩ := h.invJ n hn (by rw [hc]; simp)
+      obtain ⟨t, ht⟩ := hr.invJ n hn (by rw [hc]; simp)
       exact absurd ht (hq t)
   refine ⟨hch, ?_⟩
-  have hT := h.reachable.invT
+  have hT := hr.invT
   intro d hd
   have : d = n := by
     induction hd with
@@ -389,6 +334,54 @@ theorem C08_complete_partial {s : State} (h : ReachableH s) (n : NoteId)
       rw [hch] at this
       cases this
   exact ⟨this, this ▸ hn⟩
+
+/-- The former partial statement (hypothesis `ReachableH`: no adoption under an already notified
+    parent), now a corollary. -/
+theorem C08_complete_partial {s : State} (h : ReachableH s) (n : NoteId)
+    (hn : (s.notes n).notified = true) (hq : ∀ t, ¬ Active (s.pc t) n) :
+    (s.notes n).children = [] ∧ ∀ d, Anc s n d → d = n ∧ (s.notes d).notified = true :=
+  C08_complete h.reachable n hn hq
+
+/-- The delivery invariant behind it, in every reachable state: a notified note that still has
+    children has a thread with an activation of `note_notify_child` on it, past the store. -/
+theorem C08_delivery_in_progress {s : State} (hr : Reachable s) (n : NoteId)
+    (hn : (s.notes n).notified = true) (hc : (s.notes n).children ≠ []) :
+    ∃ t, Active (s.pc t) n := hr.invJ n hn hc
+
+theorem f4_prefix_ok : (run init Traces.f4Prefix).toOption.isSome = true := by decide
+theorem f4_trace_ok : (run init Traces.f4Trace).toOption.isSome = true := by decide
+
+/-- The scenario of the former defect F4 on the repaired library (tree note0 → note1 → note2,
+    T0 `nsync_note_notify (note0)` ∥ T1 `nsync_note_free (note1)`, the frozen schedule of
+    /verif/corpus/C08/f4_free_vs_notify_ancestor.txt).  After the first 82 events — the state in
+    which the unrepaired code was stuck for ever — T1 has returned, T0 is inside
+    WAIT_FOR_NO_CHILDREN (note0), note0 is notified and its child note2 (adopted from the freed
+    note1) is not; but `note0->children_adopted` is set, so the wait is over (`waitDone`), and T0
+    still has its activation on note0 (`Active`).  At the end of the run T0 has scanned again:
+    note2 is notified and disconnected, `nsync_note_notify (note0)` has returned. -/
+theorem f4_repaired :
+    let s1 := stateAfter _ f4_prefix_ok
+    let s2 := stateAfter _ f4_trace_ok
+    (s1.pc 0 = .chd (.waitRet false) [⟨0, none⟩] ⟨0, none, .ofApi⟩ ∧ s1.pc 1 = .idle ∧
+      (s1.notes 0).notified = true ∧ (s1.notes 0).children = [2] ∧
+      (s1.notes 2).notified = false ∧ (s1.notes 2).disconnecting = 0 ∧
+      (s1.notes 0).adopted = true ∧ (s1.notes 0).waitDone = true) ∧
+    (s2.pc 0 = .idle ∧ s2.pc 1 = .idle ∧ (s2.notes 0).children = [] ∧
+      (s2.notes 2).notified = true ∧ (s2.notes 2).parent = none ∧
+      (s2.notes 0).disconnecting = 0 ∧ (s2.notes 2).disconnecting = 0) := by
+  decide
+
+/-- What the UNREPAIRED code did with this schedule (defect F4; the accepted trace of the
+    unrepaired library was the former `C08_complete_witness`): exactly the first 82 events, after
+    which it had no `children_adopted` to end T0's wait — T0 parked for ever above the un-notified
+    note2.  (`f4_repaired` under the name the check uses for documented old behaviour.) -/
+theorem C08_complete_old_code_witness :
+    let s1 := stateAfter _ f4_prefix_ok
+    s1.pc 0 = .chd (.waitRet false) [⟨0, none⟩] ⟨0, none, .ofApi⟩ ∧ s1.pc 1 = .idle ∧
+      (s1.notes 0).notified = true ∧ (s1.notes 0).children = [2] ∧
+      (s1.notes 2).notified = false ∧ (s1.notes 2).disconnecting = 0 ∧
+      (s1.notes 0).adopted = true := by
+  decide
 
 /-- While a thread does have such an activation, every note on its stack below the innermost one
     is notified, and the innermost one is once the flag is stored. -/
